@@ -6,18 +6,21 @@ import Rbacx.Run.C01_translated
   `if self.metrics is not None:` to `return d`.  harness/pytolean_sinks.py (plugin `extractors/src_translation_sinks.py`) translates them
   statement by statement into `Rbacx.Generated.Src.engine_sinks`, a function to a SINK-CALL TRACE (Model/PySinks.lean): the three sinks
   `getattr(self.metrics, "inc", None)`, `getattr(self.metrics, "observe", None)`, `getattr(self.logger_sink, "log", None)` are PARAMETERS
-  (absent / plain function / coroutine function, returning / raising), the measured duration is an opaque value.
+  (absent, or a function in one of the three spellings the ports allow — `def`, `async def`, `def` returning an awaitable — whose work
+  returns / raises), the measured duration is an opaque value.  Since the repair of finding F21 every sink call is
+  `await maybe_await(x(args…))` (`PyS.callMaybe`); for the text before the repair (`iscoroutinefunction` dispatch, `PyS.call`) the first
+  theorem is FALSE for a `def` returning an awaitable (`PyS.f21_old_shape_drops_awaitable`) and this file does not check.
 
   Proved here, about the TRANSLATED SOURCE, for EVERY Decision value `d`, env, duration, value of `self.metrics` / `self.logger_sink`,
-  and EVERY sink (each of the three: absent, `def` or `async def`, returning or raising — independently):
+  and EVERY sink (each of the three: absent, or any spelling, its work returning or raising at call or at await time — independently):
 
-  * `engine_sinks_trace` — the block makes exactly the calls of `expectedCalls` (inc, observe, log; each iff its object is configured and
-    has the attribute; awaited iff it is a coroutine function), with the arguments `("rbacx_decisions_total", labels)`,
+  * `engine_sinks_trace` — the sinks whose WORK RUNS are exactly those of `expectedCalls` (inc, observe, log; each iff its object is
+    configured and has the attribute; once; whatever the spelling: an awaitable result is awaited), with the arguments `("rbacx_decisions_total", labels)`,
     `("rbacx_decision_seconds", dur, labels)`, `(payload,)` where `labels` / `payload` are `Src.engine_metric_labels d` /
     `Src.engine_audit_payload env d` (the statements C01_translated is about), and it ends `returned d`;
   * (i) `sinks_cannot_change_decision` — the returned value is the Decision handed in, whatever the sinks are and do;
-  * (ii) `sinks_called_once_in_order` — with a metrics object that has `inc` and `observe` and a logger sink that has `log`: exactly the
-    three calls inc, observe, log in this order, whichever of them raise (a raising `inc` does not prevent `observe`, a raising metrics
+  * (ii) `sinks_called_once_in_order` — with a metrics object that has `inc` and `observe` and a logger sink that has `log`, each in ANY
+    spelling: the work of exactly the three sinks inc, observe, log runs, once each, in this order, whichever of them raise (a raising `inc` does not prevent `observe`, a raising metrics
     sink does not prevent the audit record); `sinks_counts`: in general at most one call per sink, none for an object that is `None`;
   * (iii) `sinks_agree_model` — hypotheses of `engine_gate_finish` (C01_translated): the calls (sink + arguments) the translated block makes
     on the Decision the translated gate returns are the events of the model's `finishDecision` through `encSinkCall`;
@@ -33,7 +36,7 @@ theorem engine_sinks_trace (inc observe log : Sink) (dur m d l env : PyVal) :
       ⟨expectedCalls inc observe log (!m.isNone) (!l.isNone) dur (Src.engine_metric_labels d) (Src.engine_audit_payload env d),
        .returned d⟩ := by
   unfold Src.engine_sinks Src.engine_metric_labels Src.engine_audit_payload
-  simp only [guarded_call, isNotNone_truthy]
+  simp only [guarded_call_maybe, isNotNone_truthy]
   cases m.isNone <;> cases l.isNone <;>
     simp [expectedCalls, PyS.seq, PyS.next, PyS.ret]
 
@@ -49,13 +52,15 @@ theorem sinks_nothing_propagates (inc observe log : Sink) (dur m d l env : PyVal
   rw [engine_sinks_trace]; intro h; cases h
 
 /-- **(ii) exactly one `inc`, one `observe`, one `log`, in this order** when the metrics object (with both attributes) and the logger
-    sink (with `log`) are configured — for every combination of sync / async and returning / RAISING sinks: `observe` happens although
-    `inc` raised, the audit record is written although a metrics call raised; each call is awaited iff its sink is a coroutine function -/
-theorem sinks_called_once_in_order (ci ri co ro cl rl : Bool) (dur m d l env : PyVal) (hm : m.isNone = false) (hl : l.isNone = false) :
-    (Src.engine_sinks (.fn ci ri) (.fn co ro) (.fn cl rl) dur m d l env).calls =
-      [⟨"self.metrics.inc", ci, [.str "rbacx_decisions_total", Src.engine_metric_labels d]⟩,
-       ⟨"self.metrics.observe", co, [.str "rbacx_decision_seconds", dur, Src.engine_metric_labels d]⟩,
-       ⟨"self.logger_sink.log", cl, [Src.engine_audit_payload env d]⟩] := by
+    sink (with `log`) are configured — for every combination of the three SPELLINGS (`def`, `async def`, `def` returning an awaitable)
+    and of returning / RAISING work: every sink's work runs exactly once (an awaitable result is awaited), `observe` happens although
+    `inc` raised — at call time or at await time —, the audit record is written although a metrics call raised -/
+theorem sinks_called_once_in_order (si so sl : Spelling) (ri ro rl : Bool) (dur m d l env : PyVal)
+    (hm : m.isNone = false) (hl : l.isNone = false) :
+    (Src.engine_sinks (.fn si ri) (.fn so ro) (.fn sl rl) dur m d l env).calls =
+      [⟨"self.metrics.inc", [.str "rbacx_decisions_total", Src.engine_metric_labels d]⟩,
+       ⟨"self.metrics.observe", [.str "rbacx_decision_seconds", dur, Src.engine_metric_labels d]⟩,
+       ⟨"self.logger_sink.log", [Src.engine_audit_payload env d]⟩] := by
   rw [engine_sinks_trace, hm, hl]
   rfl
 
@@ -79,12 +84,12 @@ theorem sinks_none_configured (inc observe log : Sink) (dur d env : PyVal) :
     order — on the Decision the translated gate returns are exactly the events of the model's `finishDecision`** (`encSinkCall`: inc with
     `("rbacx_decisions_total", {"decision": effect})`, observe with `("rbacx_decision_seconds", dur, the same labels)`, log with the
     seven-key audit record).  Hypotheses: those of `engine_gate_finish`; `self.metrics` / `self.logger_sink` are `None` exactly when the
-    model's configuration has no metrics / logger; the configured objects have their attributes (sync or async, returning or raising) -/
+    model's configuration has no metrics / logger; the configured objects have their attributes (in any of the three spellings, their work returning or raising) -/
 theorem sinks_agree_model (o : Oracle) (cfg : GuardCfg) (req : Request) (env : PyVal) (raw : Raw)
     (check : PyVal → PyVal → Option PyVal) (d ctx : PyVal) (h : Represents d raw)
     (hc : check d ctx = checkerOutcome o cfg req raw)
-    (ci ri co ro cl rl : Bool) (dur m l : PyVal) (hm : m.isNone = !cfg.hasMetrics) (hl : l.isNone = !cfg.hasLogger) :
-    (Src.engine_sinks (.fn ci ri) (.fn co ro) (.fn cl rl) dur m (Src.engine_gate o check d ctx) l env).calls.map
+    (si so sl : Spelling) (ri ro rl : Bool) (dur m l : PyVal) (hm : m.isNone = !cfg.hasMetrics) (hl : l.isNone = !cfg.hasLogger) :
+    (Src.engine_sinks (.fn si ri) (.fn so ro) (.fn sl rl) dur m (Src.engine_gate o check d ctx) l env).calls.map
         (fun c => (c.callee, c.args)) =
       (finishDecision o cfg req env raw).2.map (encSinkCall dur) := by
   rw [engine_sinks_trace, engine_gate_finish o cfg req env raw check d ctx h hc, finishDecision_events, events_as_calls,
